@@ -123,6 +123,9 @@ def detM (K : M3) : Rat :=
   K 0 0 * (K 1 1 * K 2 2 - K 1 2 * K 2 1) - K 0 1 * (K 1 0 * K 2 2 - K 1 2 * K 2 0)
     + K 0 2 * (K 1 0 * K 2 1 - K 1 1 * K 2 0)
 
+/-- characteristic polynomial `det(x·I − K)` evaluated at `x`; its roots are the eigenvalues -/
+def charPoly3 (K : M3) (x : Rat) : Rat := detM (fun i j => (if i = j then x else 0) - K i j)
+
 /-! ### fourth-order tensor -/
 
 def muTab : List (List Int) :=
